@@ -193,7 +193,7 @@ static std::vector<std::string> split(const std::string &s, char c) {
 static unsigned long n_nparty = 0;
 // returns false when the run is inconclusive (a failed check in a run in which a time-out expired: outside the synchrony
 // assumption, see docs/C17.md); all findings of a conclusive run are reported
-static bool nparty_once(const Grp &G, size_t n, size_t t, const std::vector<bool> &faulty, uint64_t seed) {
+static bool nparty_once(std::vector<std::pair<std::string, std::string> > &pending, const Grp &G, size_t n, size_t t, const std::vector<bool> &faulty, uint64_t seed) {
 	std::vector<std::pair<std::string, std::string> > fails; std::vector<std::string> recs;
 	auto propfail = [&](const std::string &k, const std::string &w) { fails.push_back(std::make_pair(k, w)); };
 	std::vector<bool> fr(n); for (size_t i = 0; i < n; i++) fr[i] = gen().coin();
@@ -214,7 +214,7 @@ static bool nparty_once(const Grp &G, size_t n, size_t t, const std::vector<bool
 	if (getenv("VERIF_DEBUG")) for (size_t i = 0; i < n; i++) fprintf(stderr, "P%zu: %s\n", i, res_get(FR.text[i], "log").c_str());
 	auto finish = [&]() {
 		if (fails.empty()) { for (auto &r : recs) { fputs(r.c_str(), stdout); } return true; }
-		if (FR.timing_trouble()) { fprintf(stderr, "c17: nparty inconclusive (time-out expired in the run; %s): %s\n", fails[0].first.c_str(), ctx.c_str()); return false; }
+		if (FR.timing_trouble()) { fprintf(stderr, "c17: nparty inconclusive (time-out expired in the run; %s): %s\n", fails[0].first.c_str(), ctx.c_str()); pending = fails; return false; }
 		for (auto &f : fails) verif::propfail(f.first, f.second);
 		return true; };
 	if (FR.timed_out) { propfail("nparty-timeout", "n-party Flip did not finish within the wall-clock limit: " + ctx); return finish(); }
@@ -264,8 +264,16 @@ static bool nparty_once(const Grp &G, size_t n, size_t t, const std::vector<bool
 }
 static void nparty(const Grp &G, size_t n, size_t t, const std::vector<bool> &faulty, uint64_t seed) {
 	n_nparty++;
-	for (int attempt = 0; attempt < 4; attempt++) if (nparty_once(G, n, t, faulty, seed + 7777 * attempt)) return;
-	fprintf(stderr, "c17: nparty n=%zu: no conclusive run in 4 attempts\n", n);
+	std::vector<std::vector<std::pair<std::string, std::string> > > all;
+	for (int attempt = 0; attempt < 3; attempt++) { std::vector<std::pair<std::string, std::string> > pend; if (nparty_once(pend, G, n, t, faulty, seed + 7777 * attempt)) return; all.push_back(pend); }
+	// a wrong coin value (not a failure to complete, not a disagreement) that repeats in every attempt is reported even though
+	// time-outs expired in all of them
+	for (auto &f : all.back()) {
+		bool every = (f.first == "nparty-coin-not-sum");
+		for (auto &a : all) { bool has = false; for (auto &g : a) if (g.first == f.first) has = true; every = every && has; }
+		if (every) verif::propfail(f.first, f.second + " [repeated in 3 attempts, all with expired time-outs]");
+	}
+	fprintf(stderr, "c17: nparty n=%zu: no conclusive run in 3 attempts\n", n);
 }
 
 int main(int argc, char **argv) {
@@ -273,12 +281,13 @@ int main(int argc, char **argv) {
 	if (!init_libTMCG()) { fprintf(stderr, "init_libTMCG failed\n"); return 2; }
 	const bool T = A.thorough();
 	std::vector<std::pair<unsigned, unsigned> > sizes = { {16, 40}, {32, 64}, {61, 127}, {64, 128} };
-	if (T) { sizes.push_back({17, 33}); sizes.push_back({96, 192}); sizes.push_back({128, 256}); sizes.push_back({160, 384}); }
+	if (T) { sizes.push_back({17, 33}); sizes.push_back({96, 192}); sizes.push_back({128, 256}); }
 	mpz_t x, y, C, t; mpz_init(x); mpz_init(y); mpz_init(C); mpz_init(t);
-	unsigned rounds = T ? 6 : 1;
+	unsigned rounds = T ? 4 : 1;
 	if (A.only.empty() || A.only == "twoparty") {
 	for (unsigned rd = 0; rd < rounds; rd++)
 	for (size_t si = 0; si < sizes.size(); si++) {
+		if (rd > 0 && sizes[si].first >= 96) continue;      // the extracted model is slow on large groups: one round only
 		Grp G; G.generate(sizes[si].first, sizes[si].second);
 		if (!G.selfcheck()) { fprintf(stderr, "group generation failed\n"); return 2; }
 		for (size_t role = 0; role < 2; role++) {
